@@ -18,7 +18,7 @@ namespace MidnightZK.C15
 /-- `proofs/src/poly/query.rs: enum CommitmentLabel`. -/
 inductive Label where
   | advice (i : Nat)
-  | instance (i : Nat)
+  | inst (i : Nat)
   | fixed (i : Nat)
   | perm (i : Nat)
   | custom (s : String)
